@@ -6,9 +6,9 @@
    (and pi) range open at its last edge ([in_bin], [in_range] of Spec.v).  [fftfreq] is numpy.fft.fftfreq.
    [kmu_spec_counts n E M] is the brute-force number of modes of the FULL n^3 mesh per bin (Spec.v).
    A result `Ok ...` also says: no edge / mesh / accumulator access was out of bounds and no search ran away. *)
-From Coq Require Import ZArith QArith List Bool Permutation.
+From Coq Require Import ZArith QArith List Bool Permutation Lia.
 From Abacus.Common Require Import Arr.
-From Abacus.C08 Require Import Parts Spec Model Gen ProofsSearch Proofs ProofsExt ProofsThreads.
+From Abacus.C08 Require Import Parts Spec Model Gen ProofsSearch Proofs ProofsExt ProofsThreads ProofsPn.
 Import ListNotations.
 Local Open Scope Z_scope.
 
@@ -168,6 +168,35 @@ Theorem P_n_mu_even : forall l, In l [0; 2; 4; 6; 8; 10] ->
   forall mu : Q, (P_n_mu mu l == P_n_even (mu * mu) l)%Q.
 Proof. exact P_n_mu_even_lemma. Qed.
 Print Assumptions P_n_mu_even.
+
+(* the ingredients of P_n are regenerated from the source (factorial table, the guard of `factorial`, n_choose_k, the loop
+   range / factor / parity / exponent of P_n; the three function bodies are also compared textually by the generator):
+   the table holds 0!..20!, `factorial` accepts exactly the indices of the table, n_choose_k is the binomial coefficient
+   wherever it is defined, and for every supported order 0..10 the regenerated loop yields term by term the transcription
+   Model.pn_terms that P_n_is_legendre / P_n_odd_is_legendre are about, without leaving the table *)
+Theorem factorial_table_correct : gen_fact_table = map (fun n => zfact (Z.to_nat n)) (range 21).
+Proof. exact fact_table_correct_lemma. Qed.
+Print Assumptions factorial_table_correct.
+
+Theorem n_choose_k_is_binomial : forall n k, 0 <= k <= n -> n <= 20 ->
+  gen_fact_guard n = false /\ gen_choose n k = choose n k.
+Proof.
+  intros n k Hk Hn. split; [apply fact_guard_lemma; change (len gen_fact_table) with 21; lia|].
+  exact (gen_choose_correct_lemma n k Hk Hn).
+Qed.
+Print Assumptions n_choose_k_is_binomial.
+
+Theorem P_n_terms_regenerated : forall l, In l [0; 1; 2; 3; 4; 5; 6; 7; 8; 9; 10] ->
+  gen_pn_terms l = pn_terms l /\
+  forall k, 0 <= k < gen_pn_range l ->
+    gen_fact_guard l = false /\ gen_fact_guard k = false /\ gen_fact_guard (l - k) = false /\
+    gen_fact_guard (2 * l - 2 * k) = false /\ gen_fact_guard (2 * l - 2 * k - l) = false.
+Proof.
+  intros l Hl. split; [exact (pn_terms_regenerated_lemma l Hl)|].
+  intros k Hk. apply pn_factorials_in_table_lemma; [|exact Hk].
+  cbn [In] in Hl. repeat (destruct Hl as [<-|Hl]; [lia|]). destruct Hl.
+Qed.
+Print Assumptions P_n_terms_regenerated.
 
 (* thread bookkeeping (the order of numba.set_num_threads / get_num_threads / accumulator allocation / prange loop is
    regenerated from both kernels): whatever thread count earlier numba code left in force and whatever nthread is
